@@ -205,12 +205,12 @@ func runTLSInproc(r *ev.Run, gid string, rng *rand.Rand, all bool) {
 				}
 				w := tlsWitness{Group: gid, Tier: r.Tier, Seed: r.Seed, Where: "inproc", Options: o, Cred: s, TLSMax: tv.name}
 				judgeTLS(r, w, accepted)
-				if s.Near && o.judged() && r.Get("handshakes_inproc")%97 == 0 {
+				if s.Near && o.judged() && s.Unjudged == "" && r.Get("handshakes_inproc")%7 == 0 {
 					es := ""
 					if serr != nil {
 						es = serr.Error()
 					}
-					r.Sample(map[string]any{"group": gid, "where": "inproc", "options": o, "credential": s, "client_max_tls": tv.name, "observed": acc(accepted), "server_handshake_error": es})
+					keep("tls-inproc", map[string]any{"group": gid, "where": "inproc", "options": o, "credential": s, "client_max_tls": tv.name, "observed": acc(accepted), "server_handshake_error": es})
 				}
 			}
 		}
@@ -342,8 +342,8 @@ func runTLSBinary(r *ev.Run, g tlsBinGroup, rng *rand.Rand, all bool) {
 			}
 			w := tlsWitness{Group: g.id, Tier: r.Tier, Seed: r.Seed, Where: where, Options: o, Cred: s, TLSMax: tv.name, Args: in.args}
 			judgeTLS(r, w, ok)
-			if s.Near && r.Get("tls_rpc_probes")%23 == 0 {
-				r.Sample(map[string]any{"group": g.id, "where": where, "options": o, "credential": s, "client_max_tls": tv.name, "observed": acc(ok), "client_saw": detail})
+			if s.Near && s.Unjudged == "" && r.Get("tls_rpc_probes")%5 == 0 {
+				keep("tls-binary", map[string]any{"group": g.id, "where": where, "options": o, "credential": s, "client_max_tls": tv.name, "observed": acc(ok), "client_saw": detail})
 			}
 		}
 	}
